@@ -99,6 +99,15 @@ BUILT = {
             'Rays that leave the domain of a relation (recorded off the vertex sheet, lost at a dummy met from behind) are '
             'excluded and counted; the launch record of infinite-object lenses is not "downstream" of a dummy surface.',
             'DESIGN.md §4 C07'),
+    'C16': ('law monitor over the per-surface intensity log with an independent loss model (aperture test in own frame, Beer-Lambert over own segment length, simple coating factors) + icontract postcondition on RealRays.propagate/clip',
+            'Exploration: ~250k (quick) / ~10M (thorough) (ray, surface) intensity records from generated lenses with '
+            'apertures (with obscurations), absorbing media, simple coatings, mirrors, tilts, under polarization '
+            '"ignore", unpolarized and polarized states, through Optic.trace and trace_generic; each record must be in '
+            '[0,1], non-increasing and equal to the product of the specified losses (1e-9); returned rays and the '
+            'Wavefront analysis must carry the recorded values. Held = no record deviated.',
+            'Trusts the frame/segment recomputation in vkit/oracles/shapes.py and the library k(lambda) of catalogue '
+            'media; rays within 1e-9 of an aperture edge are not judged.',
+            'DESIGN.md §4 C16'),
 }
 
 NOT_YET = {}
